@@ -271,6 +271,7 @@ package spg
 //@   inline
 
 //@ func (WLRecipe).Generate
+//@   nomerge loop 3
 //@   ghost CW, K, P
 //@   define size() = ite(len(r.list.words) > 4294967295, 4294967295, len(r.list.words))
 //@   define ncap() = ite(r.Capitalize == CSOne, 1, ite(r.Capitalize == CSRandom, r.Length, 0))
